@@ -135,8 +135,9 @@ structure WOK6 (W : World) : Prop where
 
 /-! ## goals -/
 
-/-- the machine hits one of its limits (stack height / number of frames at a call) -/
-abbrev Ovf (C : Code) (s : VM) : Prop := SimF.Fails C s .index
+/-- the machine hits one of its limits (stack height / number of frames at a call): the same notion as in stage 4,
+    a `Call` whose limit check fails is reached (`AtLimit`) -/
+abbrev Ovf (C : Code) (s : VM) : Prop := SimF.Ovf C s
 /-- the machine reaches a failing step of kind `er`, having printed exactly `o` -/
 abbrev Fails6 (C : Code) (s : VM) (er : Err) (o : List Text) : Prop := SimH.Fails5 C s er o
 
@@ -226,7 +227,7 @@ theorem GoalG.prefix {α : Type} {fn ab : Bool} {lp : LoopCtx} {base : Array Val
     (hvc : ∀ a st', VC1 a st' → VC a st')
     (h : GoalG W Γb Λ nl below fr fn ab lp base c1 VC1 r) : GoalG W Γb Λ nl below fr fn ab lp base c VC r := by
   rcases h with h | h
-  · exact .inl (SimF.Fails.after n hpre h)
+  · exact .inl (SimF.Ovf.after n hpre h)
   · refine .inr ?_
     cases r with
     | val a st' => exact hvc a st' h
